@@ -5,6 +5,19 @@ ROOT = os.path.dirname(os.path.dirname(os.path.abspath(__file__)))
 PROPS = [json.loads(l)["id"] for l in open(os.path.join(ROOT, "properties.jsonl"))]
 
 CLAIMED = {
+ "C04": dict(
+   text="Machine-checked Coq theorems: for an arbitrary inner reader (any decoder or decryptor, even a misbehaving one), "
+        "an arbitrary checksum function and every schedule of caller buffer sizes including zero-length reads, an end "
+        "of file observed through the Crc32Reader model means the bytes returned hash to the declared value unless the "
+        "entry is AE-2 (induction over the schedule, invariant 'hashed = returned'); instantiated for the entry reader of "
+        "the archive model (any archive bytes); and, over well-behaved inner streams, the outcome is chunk-independent "
+        "(streams lemma).  Correspondence: the reader model (open, by_index, local-header skip, crypto selection, "
+        "Take/ZipCrypto/CRC layers) vs the crate on seed archives x every single-bit flip of data and CRC fields, "
+        "multi-byte damage, truncations, swaps x buffer schedules incl. zero-length reads; streaming reader judged by "
+        "the oracle (CRC-32 by CPython zlib).",
+   note="Trusted: Coq kernel, extraction+driver, harness, genzip.py reference builder. Decompressors and AES are outside the executed model here (compared up to metadata; the oracle still judges the bytes). The theorem is about the Crc32Reader model and make_reader's wrapping, tied by correspondence.",
+   technique="Coq proof (induction over read schedules, arbitrary inner reader) + damage-enumeration correspondence",
+   design="8 (C04)"),
  "C06": dict(
    text="Machine-checked Coq theorems for all names (unbounded): enclosed_name returns the name iff it is NUL-free, "
         "relative and never climbs above its start at any prefix of the component walk (iff against a declarative "
